@@ -113,6 +113,12 @@ class C15(vlib.Check):
                 case["smiles"] = rng.sample(CONF_SMILES, n)
             self.count("files:" + route)
             yield case
+        # the conformer batch dies (process killed) or fails (exception the library handles) WHILE one molecule's conformers are
+        # being generated; the re-run without overwrite must complete every missing output
+        for k in range(2 if self.tier == "quick" else 12):
+            n = rng.randint(3, 5)
+            self.count("conformer-batch-crash")
+            yield {"t": "confcrash", "n": n, "smiles": rng.sample(CONF_SMILES, n), "victim": rng.randrange(n), "how": ["kill", "raise"][k % 2]}
         for k in range(2 if self.tier == "quick" else 10):
             nfiles = rng.randint(4, 6)
             files = rng.sample(refs, nfiles)
@@ -229,7 +235,31 @@ class C15(vlib.Check):
         finally:
             shutil.rmtree(d, ignore_errors=True)
 
+    def _confcrash(self, case):
+        from e3fp.conformer import generate as CG
+        d = tempfile.mkdtemp(prefix="cc_", dir=self.tmp())
+        try:
+            smi = os.path.join(d, "in.smi")
+            with open(smi, "w") as f:
+                for i, sm in enumerate(case["smiles"]):
+                    f.write("%s m%02d\n" % (sm, i))
+            clean, out = os.path.join(d, "clean"), os.path.join(d, "out")
+            CG.run(smiles=[smi], num_conf=3, seed=42, out_dir=clean, parallel_mode="serial")
+            ref = {fn: open(os.path.join(clean, fn), "rb").read() for fn in sorted(os.listdir(clean))}
+            env = dict(os.environ, PYTHONPATH=vlib.VERIF)
+            subprocess.run([sys.executable, "-m", "harness.props.C15", "--confchild", out, smi, "m%02d" % case["victim"], case["how"]],
+                           cwd=vlib.VERIF, env=env, stdout=subprocess.DEVNULL, stderr=subprocess.DEVNULL, timeout=600)
+            mid = sorted(os.listdir(out)) if os.path.isdir(out) else []
+            CG.run(smiles=[smi], num_conf=3, seed=42, out_dir=out, overwrite=False, parallel_mode="serial")
+            got = {fn: open(os.path.join(out, fn), "rb").read() for fn in sorted(os.listdir(out))}
+            return {"ref": sorted(ref), "after_crash": mid, "equal": sorted(fn for fn in ref if got.get(fn) == ref[fn]),
+                    "sizes": {fn: len(b) for fn, b in got.items()}}
+        finally:
+            shutil.rmtree(d, ignore_errors=True)
+
     def impl(self, case):
+        if case["t"] == "confcrash":
+            return {"ok": "see prop"}
         if case["t"] == "files":
             return attempt(lambda: self._files_state(case))
         if case["t"] != "batch":
@@ -292,6 +322,19 @@ class C15(vlib.Check):
 
     # ------------------------------------------------------------------ property
     def prop(self, case):
+        if case["t"] == "confcrash":
+            r = attempt(lambda: self._confcrash(case))
+            if "err" in r:
+                return {"key": "batch-raises:confcrash:" + r["err"], "what": "the conformer batch raised %s" % r["err"]}
+            o = r["ok"]
+            if o["equal"] != o["ref"]:
+                bad = [fn for fn in o["ref"] if fn not in o["equal"]]
+                return {"key": "resume-incomplete:conformers:after-%s" % case["how"],
+                        "what": "conformer generation was %s while %s was being generated; after the re-run without overwrite the outputs %s are "
+                                "not those of a clean run (sizes %s; files present after the interruption: %s)" % (
+                                    "killed" if case["how"] == "kill" else "made to fail", "m%02d" % case["victim"], bad,
+                                    {fn: o["sizes"].get(fn) for fn in bad}, o["after_crash"])}
+            return None
         if case["t"] == "files":
             r = attempt(lambda: self._files_state(case))
             if "err" in r:
@@ -429,7 +472,28 @@ def child(argv):
     FG.run(paths, bits=bits, first=first, level=level, counts=counts, out_dir_base=base, parallel_mode="serial")
 
 
+def confchild(argv):
+    """the conformer batch, dying (or failing) while the victim's conformers are being generated"""
+    vlib.setup_env()
+    out, smi, victim, how = argv[:4]
+    from e3fp.conformer import generate as CG
+    from e3fp.conformer.generator import ConformerGenerator
+    orig = ConformerGenerator.generate_conformers
+
+    def gen(self, mol):
+        if mol.HasProp("_Name") and mol.GetProp("_Name") == victim:
+            if how == "kill":
+                os._exit(137)
+            raise MemoryError("transient failure injected by the harness")
+        return orig(self, mol)
+    ConformerGenerator.generate_conformers = gen
+    CG.run(smiles=[smi], num_conf=3, seed=42, out_dir=out, parallel_mode="serial")
+
+
 if __name__ == "__main__":
+    if "--confchild" in sys.argv:
+        confchild(sys.argv[sys.argv.index("--confchild") + 1:])
+        sys.exit(0)
     if "--child" in sys.argv:
         child(sys.argv[sys.argv.index("--child") + 1:])
         sys.exit(0)
